@@ -70,6 +70,27 @@ func (v VPath) AllFacts() []Fact {
 	return append(append([]Fact(nil), v.Facts...), v.Extra...)
 }
 
+// HasFact tells whether the path carries the atom with the polarity, among its branch facts or the facts
+// implied by the selected outcome (`return f(x)` selected as success implies that f succeeded).
+func (v VPath) HasFact(atom string, pol bool) bool {
+	for _, f := range v.AllFacts() {
+		if f.Pol == pol && f.Atom.String() == atom {
+			return true
+		}
+	}
+	return false
+}
+
+// FactOn returns the polarity of atom on the path (branch facts and outcome facts), if present.
+func (v VPath) FactOn(atom string) (pol bool, ok bool) {
+	for _, f := range v.AllFacts() {
+		if f.Atom.String() == atom {
+			return f.Pol, true
+		}
+	}
+	return false, false
+}
+
 // lastErrIndex returns the index of the error result of fn (-1 if none).
 func lastErrIndex(fn *ssa.Function) int {
 	res := fn.Signature.Results()
